@@ -32,6 +32,8 @@ type world struct {
 	states          map[string]bool
 	committedBlocks int
 	touchLater      [][2]string
+	commitPlanned   map[int]bool
+	taken           []int
 }
 
 func (w *world) fail(oracle, class, f string, a ...interface{}) {
@@ -66,6 +68,9 @@ func newWorld(s *Script) *world {
 // Exec runs a sequential cache script (C06, C07).
 func Exec(sc sim.Script) *sim.Outcome {
 	s := sc.(*Script)
+	if len(s.Tasks) > 0 {
+		return ExecSched(sc)
+	}
 	w := newWorld(s)
 	for i, op := range s.Ops {
 		w.step = i
